@@ -179,7 +179,9 @@ func extractQuotedSnippets(text string) (snippets []*snippet, quoted []bool, err
 					text:           prepToken(text[start:pos]),
 					globalPosition: start + 1,
 				})
-				quoted = append(quoted, false)
+				// A token with an escaped character is taken literally, like a
+				// quoted one: "\(" is a key or value, not a structural token.
+				quoted = append(quoted, strings.ContainsRune(text[start:pos], '\\'))
 				start = -1
 			}
 		default:
@@ -216,7 +218,7 @@ func extractQuotedSnippets(text string) (snippets []*snippet, quoted []bool, err
 			text:           prepToken(text[tokenStart:]),
 			globalPosition: start + 1,
 		})
-		quoted = append(quoted, inParenthesis)
+		quoted = append(quoted, inParenthesis || strings.ContainsRune(text[tokenStart:], '\\'))
 	}
 
 	return snippets, quoted, nil
